@@ -2,17 +2,29 @@
 
 Tie
   * translator harness/translate/c04_op4consts.py -> lean/PyYetiVerif/Generated/Op4Consts.lean
-    (the literals of OP4.__init__, the ASCII/binary headers and the `<< 16` / `>> 16` of the
-    nonbigmat string header; theorems are proved about these regenerated constants);
-  * exact correspondence between lean/PyYetiVerif/Model/Op4.lean (run through Drivers/C04.lean) and
-    pyyeti.nastran.op4 on the same logical inputs:
-      colstats  OP4._sparse_col_stats                      == Model.colStats
-      enc       bytes written by op4.write(binary=True)    == Model.encFileBytes   (or struct_error)
-      dec       op4.load(into='list', sparse=F/T/None)     == Model.rdFile on those bytes
-      dir       op4.dir                                    == Model.dirWords
-      asc       text written by op4.write(binary=False)    == Model.encFileAscii
-      fmt       '%{numlen}.{digits}E' % x (CPython)        == Model.fmtE
-  * model-free oracle (search / replay): read(write(x)) == x on the public API only.
+    (the literals of OP4.__init__, the ASCII/binary headers, the `<< 16` / `>> 16` of the nonbigmat string
+    header, the ASCII reader's default format and title-line field widths; the column-header slices of the
+    four ASCII readers are asserted to be the literals of the Lean model);
+  * exact correspondence between the Lean models (run through Drivers/C04.lean) and pyyeti.nastran.op4:
+      colstats  OP4._sparse_col_stats                      == Op4.colStats
+      enc       bytes written by op4.write(binary=True)    == Op4.encFileBytes   (or struct_error)
+      dec-d     op4.load(into='list', sparse=False)        == Op4.decodeBytes    (the function of file_roundtrip_bytes)
+      dec-s/a   op4.load(..., sparse=True/None)            == Op4.rdFile + cooOfPuts / sparseAuto
+      dir       op4.dir                                    == Op4.dirWords
+      asc       text written by op4.write(binary=False)    == Op4.encFileAscii
+      fmt       '%{numlen}.{digits}E' % x (CPython)        == Op4.fmtE
+      aread     op4.load (3 modes) + op4.dir on the ASCII text pyYeti wrote (digits 1..16, 17, 20, 30, 73, default)
+                                                           == Op4A.loadAscii / dirAscii  (Model/Op4Ascii.lean)
+      avar      the same on ASCII variant files from the format-only encoder Op4V.encAFile (D/E exponents, any
+                perline/width, with/without 1P, lower case, single precision, arbitrary partitions into strings,
+                3-digit exponents, under/overflow of float())
+      amut      the same on mutated texts (cut at a line, no final newline, empty line, lower case, format
+                field removed -> defaults 5/16, blanks after the title line): what the reader rejects
+      afld/aint float(field) / int(field) (CPython)        == Op4A.pyFloat? (+ PyFloat.toBits) / Op4A.pyInt?
+      avals     OP4._put_ascii_values_sparse[_c]           == Op4A.readVals (fields + pyFloat?)
+      ablk      OP4._get_ascii_block                       == Op4A.getBlock
+  * model-free oracle (search / replay): read(write(x)) == x on the public API only; and, for ASCII variant
+    files, read(text) == the logical content the text was generated from (independent Python encoder).
 """
 import json
 import os
@@ -35,18 +47,27 @@ TieBroken = getattr(_main, "TieBroken", _runner.TieBroken)
 Infra = getattr(_main, "Infra", _runner.Infra)
 
 ID = "C04"
-LEAN_MODULES = ["PyYetiVerif.Props.C04", "PyYetiVerif.Audit.C04"]
+LEAN_MODULES = ["PyYetiVerif.Props.C04", "PyYetiVerif.Audit.C04", "PyYetiVerif.Model.PyFloat",
+                "PyYetiVerif.Model.Op4Variants"]  # (the last two: imported by Drivers/C04.lean)
 AUDIT_FILE = "PyYetiVerif/Audit/C04.lean"
 THEOREMS = [
     "PyYetiVerif.C04." + n
     for n in (
-        "colStats_spec colStats_maximal nwords_consumed unpack_pack pack_fits_i32 column_roundtrip_nonbigmat column_roundtrip_bigmat column_roundtrip_dense name_roundtrip nonbigmat_writes_iff file_writes_iff file_roundtrip_binary decCol_spec nonbigmat_overflow_example double_words_roundtrip bytes_roundtrip fmtE_width ascii_overflow_example"
+        "colStats_spec colStats_maximal nwords_consumed unpack_pack pack_fits_i32 column_roundtrip_nonbigmat "
+        "column_roundtrip_bigmat column_roundtrip_dense name_roundtrip nonbigmat_writes_iff file_writes_iff "
+        "file_roundtrip_binary decCol_spec nonbigmat_overflow_example double_words_roundtrip bytes_roundtrip "
+        "fmtE_width ascii_overflow_example file_roundtrip_bytes empty_file_refused value_lines ascii_slicing "
+        "fits_iff_width ascii_column_roundtrip_dense ascii_column_roundtrip_bigmat ascii_column_roundtrip_nonbigmat "
+        "string_lines header_roundtrip_ascii file_roundtrip_ascii decOf_zero ascii_entry_spec sci_mantissa_digits "
+        "ascii_value_half_unit field_roundtrip"
     ).split()
 ]
 TRUSTED = [
     "correspondence harness harness/props/c04.py (exact: bytes, text, decoded bit patterns)",
     "translator harness/translate/c04_op4consts.py (constants of op4.py -> Generated/Op4Consts.lean)",
-    "CPython struct.pack/unpack, '%E' formatting and float() are modelled (fmtE) and correspondence-checked, not verified",
+    "CPython struct.pack/unpack, '%E' formatting, int() and float() are modelled (fmtE, pyInt?, pyFloat? + the "
+    "correctly rounded PyFloat.toBits in the driver) and correspondence-checked, not verified",
+    "CPython text-mode readline / itertools.islice are modelled by cutting the text at '\\n' (linesOf)",
     "numpy/scipy.sparse containers (nonzero, lexsort, find, coo_matrix) are modelled by list functions",
     "matrix names are ASCII; doubles are finite (the property's quantifier)",
 ]
@@ -55,37 +76,58 @@ RULE = (
     "sparsity styles dense/random/runs/all-zero/empty rows and columns, values from small integers, normals, "
     "arbitrary finite bit patterns, subnormals, 3-digit exponents, -0.0) x byte order x sparse option x digits x "
     "names (valid 1..8 characters, mixed case, invalid, too long) x forms (automatic or explicit); plus two "
-    "16383/16384-row single-string columns; each file is compared as bytes/text and decoded in the three read modes "
-    "and by dir; non-trivial = some matrix has a column with at least two strings or the write raises; distinct by "
-    "the whole logical input"
+    "16383/16384-row single-string columns and a sweep over digits 1..16, 17, 20, 30, 73 and the default x the four "
+    "sparse options; each file is compared as bytes/text, decoded in the three read modes and by dir, and the ASCII "
+    "text is read by the Lean ASCII reader; ASCII reader only: variant files (any perline/width, D or E exponents, "
+    "1P or not, lower case, single/double, arbitrary string partitions, 3-digit exponents of both signs, values that "
+    "under/overflow), mutated texts (what the reader rejects), single fields for float()/int(), blocks for the put "
+    "functions and _get_ascii_block; non-trivial = some matrix has a column with at least two strings or the write "
+    "raises (files) / every case (reader-only streams); distinct by the whole logical input"
 )
 ASSUMPTIONS = [
     "values are finite doubles; names are ASCII; digits between 1 and 73 (perline >= 1)",
-    "matrices have fewer than 2^28 rows (record lengths fit 32 bits)",
-    "the ASCII reader is not modelled in Lean (the ASCII round trip is checked by the oracle on the real code only)",
+    "binary: matrices have fewer than 2^28 rows (word level) / 2^27 rows (byte level: record lengths are 32-bit words)",
+    "ASCII theorems: 6*rows < 10^8, columns + 1 < 10^8, form < 10^8 (every integer fits its 8-character field), "
+    "valid names of at most 8 characters, at least one matrix per file, every written value fits its field "
+    "(not negative with a 3-digit exponent: finding F3)",
+    "ASCII reader model: no carriage returns, no underscores / inf / nan in numbers, announced perline and numlen "
+    ">= 1, no negative row / column / length fields (the model answers `reject`; the harness never produces them)",
 ]
 PARTIAL = (
-    "binary: proved for whole files at the level of the 32-bit word stream (file_roundtrip_binary) with "
-    "bytes_roundtrip / name_roundtrip carrying words and names to bytes separately (not composed into one "
-    "byte-level statement; the sparse=True COO view and sparse=None choice are model definitions checked by "
-    "correspondence, not theorems); ASCII: fmtE_width only - ascii_slicing / file_roundtrip_ascii are not proved "
-    "(no Lean model of the ASCII reader): the ASCII round trip is established by the oracle on the real code"
+    "binary and ASCII: the sparse=True COO view (cooOfPuts) and what sparse=None resolves to (sparseAuto) are model "
+    "definitions checked by correspondence, not theorems - the file theorems are about the dense read; "
+    "ASCII: the theorems end at the exact decimal a field denotes (read-back decimal = printed decimal, "
+    "|printed - x| <= half a unit of the last digit); the last step float(decimal) -> nearest double is CPython's "
+    "(modelled in the driver by PyFloat.toBits and correspondence-checked bit for bit), so 'bit-identical for "
+    "digits >= 16' is established by the oracle, not proved; dir on ASCII files (_skipop4_ascii) is modelled and "
+    "correspondence-checked (dirAscii) without a theorem; files with carriage returns are outside the reader model"
 )
 MANIFEST = {
-    "level_text": "Proof (Lean 4, kernel-checked, standard axioms) about an exact word/byte-level model of the OUTPUT4 "
-    "binary writer and reader and a bit-exact model of CPython's %E: for every list of matrices, layout and byte order "
-    "the reader decodes the written word stream to the written names, sizes, forms, types and columns "
-    "(file_roundtrip_binary; -0.0 outside written strings reads as +0.0) exactly when the writer succeeds, which is iff "
-    "every nonbigmat string satisfies L+1 < 32768 (pack_fits_i32, finding F2); _sparse_col_stats yields exactly the "
-    "maximal runs and the word count the reader consumes to zero; the formatted ASCII field has the announced width "
-    "iff not (x<0 and |exp10|>=100) (finding F3). The model is tied to op4.py by a constants translator and by exact "
-    "byte/text/decode correspondence.",
-    "level_note": "The ASCII reader is not modelled (ASCII round trip: model-free oracle only); byte-level and word-level "
-    "statements are separate theorems (see PARTIAL). Trusted: Lean "
-    "kernel; propext, Classical.choice, Quot.sound; the Python harness; CPython struct/float formatting; numpy/scipy "
-    "containers.",
-    "technique": "Lean 4 proof (induction over strings/columns, omega on the packed header, bounded search for %E) + "
-    "source->Lean constants translator + exact differential correspondence of bytes, text and decoded values",
+    "level_text": "Proof (Lean 4, kernel-checked, standard axioms) about exact models of the OUTPUT4 binary writer/reader "
+    "(bytes), the ASCII writer (text, with a bit-exact model of CPython's %E) and the ASCII reader (lines, int(), "
+    "float() as exact decimals). Binary: for every non-empty list of matrices, layout and byte order, decodeBytes of "
+    "the written bytes is the written names (lower-cased), shapes, forms, types and columns (file_roundtrip_bytes = "
+    "file_roundtrip_binary + bytes_roundtrip + name_roundtrip + format detection; -0.0 outside written strings reads "
+    "as +0.0) exactly when the writer succeeds, which is iff every nonbigmat string satisfies L+1 < 32768 "
+    "(pack_fits_i32, finding F2). ASCII: for every non-empty list of matrices and digits 1..73, loadAscii of the written "
+    "text returns per matrix the name field, rows, columns, form, type and announced format, and every non-zero "
+    "element reads back as exactly the printed decimal (file_roundtrip_ascii, ascii_entry_spec), which is within half a "
+    "unit of the last printed digit of the double (ascii_value_half_unit; the printed mantissa has exactly digits+1 "
+    "digits, sci_mantissa_digits) - under the hypothesis that every value fits its field, which holds iff not (x<0 and "
+    "|exp10|>=100) (fmtE_width, fits_iff_width; finding F3). ascii_slicing: for every width, perline and count the "
+    "reader's slices of the value lines are the written fields; ascii_column_roundtrip_{dense,bigmat,nonbigmat} for "
+    "every partition into strings; _sparse_col_stats yields exactly the maximal runs and the word count the readers "
+    "consume to zero.",
+    "level_note": "Tied, not proved: the models are tied to op4.py by the constants translator and by exact "
+    "correspondence of bytes, text, decoded values, listings, single fields and blocks (pyYeti's own ASCII files for "
+    "digits 1..16/17/20/30/73/default and all layouts, variant files, mutated texts). The sparse=True / sparse=None "
+    "views, dir on ASCII files and the final float(decimal) rounding are model definitions / driver code checked by "
+    "correspondence only (see PARTIAL). Trusted: Lean kernel; propext, Classical.choice, Quot.sound; the Python "
+    "harness; CPython struct/int/float/%E and text-mode line reading; numpy/scipy containers.",
+    "technique": "Lean 4 proof (induction over lines/strings/columns/matrices, omega on the packed header, bisection "
+    "invariant for the %E exponent, rational arithmetic for the half-unit bound, relational transport of the binary "
+    "put lemmas to the ASCII reader) + source->Lean constants translator + exact differential correspondence of "
+    "bytes, text, decoded values, fields and blocks",
 }
 
 KNOWN_F2 = "op4-binary-nonbigmat-string-ge-16384-rows"
@@ -835,7 +877,7 @@ def _ascii_reader_streams(ctx, op4, drv, sc, ascii_texts):
                     ctx.count("avar:D-format")
                 if c["perline"] == 1:
                     ctx.count("avar:perline-1")
-                inp = {"variant": key}
+                inp = {"variant": c}
             else:
                 ctx.count("amut:" + info)
                 ctx.count("amut:rejected" if impl[0] == "error" else "amut:accepted")
@@ -1243,6 +1285,111 @@ def _check_roundtrip_(op4, sc, case, inputs, binary):
     return None
 
 
+
+# -- ASCII variant files: model-free -----------------------------------------------------------------------------
+
+
+def _py_encode_variant(case):
+    """the text of a variant file, written from the format description only (no Lean, no pyYeti)"""
+    w, p = case["width"], case["perline"]
+
+    def num(neg, exp, digits):
+        body = (("-" if neg else "") + str(digits[0]) + "." + "".join(map(str, digits[1:]))
+                + ("D" if case["useD"] else "E") + ("-" if exp < 0 else "+") + "%02d" % abs(exp))
+        return body.rjust(w)
+
+    def lines(vals):
+        out = ""
+        for i in range(0, len(vals), p):
+            out += "".join(num(*v) for v in vals[i : i + p]) + "\n"
+        return out
+
+    wper = 1 if case["single"] else 2
+    out = ""
+    for m in case["mats"]:
+        spec = ("1P," if case["lead1P"] else "") + "%d%s%d.%d" % (p, "D" if case["fmtD"] else "E", w, w - 7)
+        if case["lower"]:
+            spec = spec.lower()
+        mtype = (3 if m["cplx"] else 1) + (0 if case["single"] else 1)
+        out += "%8d%8d%8d%8d%-8s%s\n" % (m["ncols"], -m["rows"] if m["neg"] else m["rows"], m["form"], mtype, m["name"], spec)
+        for c, strs in m["cols"]:
+            if m["lay"] == "d":
+                r0, vals = strs[0]
+                out += "%8d%8d%8d\n" % (c + 1, r0 + 1, len(vals)) + lines(vals)
+            elif m["lay"] == "b":
+                out += "%8d%8d%8d\n" % (c + 1, 0, sum(len(v) * wper + 2 for _, v in strs))
+                for r0, vals in strs:
+                    out += "%8d%8d\n" % (len(vals) * wper + 1, r0 + 1) + lines(vals)
+            else:
+                out += "%8d%8d%8d\n" % (c + 1, 0, sum(len(v) * wper + 1 for _, v in strs))
+                for r0, vals in strs:
+                    out += "%12d\n" % ((r0 + 1) + ((len(vals) * wper + 1) << 16)) + lines(vals)
+        out += "%8d%8d%8d\n" % (m["ncols"] + 1, 1, 1) + num(0, 0, [1, 0, 0, 0, 0]) + "\n"
+    return out
+
+
+def _vcase_norm(case):
+    """(after a JSON round trip the tuples are lists)"""
+    c = dict(case)
+    c["mats"] = [dict(m, cols=[(cc, [(r0, [tuple([v[0], v[1], list(v[2])]) for v in vals]) for r0, vals in strs])
+                               for cc, strs in m["cols"]]) for m in case["mats"]]
+    return c
+
+
+def _check_variant(op4, sc, case):
+    """None, or (what, observed, required): pyYeti reads the file as the content it was generated from"""
+    case = _vcase_norm(case)
+    p = sc.path()
+    with open(p, "w", newline="") as f:
+        f.write(_py_encode_variant(case))
+    want = _vcase_expected(case)
+    for mode in (False, True, None):
+        try:
+            with warnings.catch_warnings(), _TimeLimit(60):
+                warnings.simplefilter("ignore")
+                rn, rm, rf, rt = op4.load(p, into="list", sparse=mode)
+        except Exception as e:  # noqa: BLE001
+            return ("read-raises", "%s: %s (sparse=%r)" % (type(e).__name__, e, mode), "the matrices of the file")
+        if rn != [w[0] for w in want]:
+            return ("names", rn, [w[0] for w in want])
+        for k, (w_, X) in enumerate(zip(want, rm)):
+            A = X.toarray() if sp.issparse(X) else np.asarray(X)
+            if A.shape != (w_[1], w_[2]):
+                return ("shape", list(A.shape), [w_[1], w_[2]])
+            if int(rf[k]) != w_[3] or int(rt[k]) != w_[4]:
+                return ("form-type", [int(rf[k]), int(rt[k])], [w_[3], w_[4]])
+            B = w_[5]
+            if not np.all(np.isfinite(B.view(np.float64) if np.iscomplexobj(B) else B)):
+                continue  # a value beyond the double range: outside "any finite double"
+            if not _same_bits(A, B):
+                bad = np.argwhere(A != B)
+                i, j = (int(bad[0][0]), int(bad[0][1])) if len(bad) else (-1, -1)
+                return ("values", {"matrix": k, "at": [i, j], "read": repr(A[i, j]) if i >= 0 else "?", "sparse": repr(mode)},
+                        {"in the file": repr(B[i, j]) if i >= 0 else "?"})
+    try:
+        dn, ds, df, dt = op4.dir(p, verbose=False)
+    except Exception as e:  # noqa: BLE001
+        return ("dir-raises", "%s: %s" % (type(e).__name__, e), "a listing")
+    got = [(a, int(b[0]), int(b[1]), int(c), int(d)) for a, b, c, d in zip(dn, ds, df, dt)]
+    if got != [w[:5] for w in want]:
+        return ("dir", got, [list(w[:5]) for w in want])
+    return None
+
+
+def _variant_family(case, what):
+    lays = "+".join(sorted({{"d": "dense", "b": "bigmat", "n": "nonbigmat"}[m["lay"]] for m in case["mats"]}))
+    return "op4-ascii-read-variant-%s-%s%s-%s" % (lays, "D" if case["useD"] else "E", "-single" if case["single"] else "", what)
+
+
+def _oracle_variant(ctx, op4, sc, case):
+    r = _check_variant(op4, sc, case)
+    ctx.count("oracle:ascii-variant")
+    if r is not None:
+        ctx.fail(_variant_family(case, r[0]), "ASCII variant file read by op4.load / op4.dir: %s" % r[0],
+                 {"variant": case}, r[1], r[2])
+        ctx.extra["unknown_failures"] = ctx.extra.get("unknown_failures", 0) + 1
+
+
 def _unrepresentable(case):
     """ASCII with fewer than 17 significant digits: a value that rounds past the largest double cannot be
     'read back to the requested digits' (it reads as inf) - outside the property's domain"""
@@ -1373,6 +1520,9 @@ def search(ctx, hints):
             if isinstance(j, dict) and "mats" in j and seen < 25:
                 seen += 1
                 _oracle_case(ctx, op4, sc, _case_from_json(j), rng)
+            elif isinstance(j, dict) and isinstance(j.get("variant"), dict) and seen < 40:
+                seen += 1
+                _oracle_variant(ctx, op4, sc, j["variant"])
         # 2. corpus
         cp = os.path.join(ctx.verif, "corpus", "c04.json")
         if os.path.exists(cp):
@@ -1399,6 +1549,11 @@ def search(ctx, hints):
                              {"x": x.tolist(), "dtype": str(x.dtype)}, got.tolist(), np.atleast_2d(x).astype(float).tolist())
             except Exception as e:  # noqa: BLE001
                 ctx.fail("op4-binary-coerced-input", "write/read raises", {"x": x.tolist(), "dtype": str(x.dtype)}, repr(e), "round trip")
+        # ASCII variant files (reader only)
+        for _ in range(ctx.pick(300, 2500)):
+            _oracle_variant(ctx, op4, sc, _gen_vcase(rng))
+            if ctx.extra.get("unknown_failures", 0) > 25:
+                break
         # 4. seeded random stream
         n = ctx.pick(1500, 12000)
         for i in range(n):
@@ -1418,6 +1573,15 @@ def replay(ctx, data):
     if not f:
         return None
     j = f["input"]
+    if isinstance(j.get("variant"), dict):
+        sc = _Scratch()
+        try:
+            r = _check_variant(op4, sc, j["variant"])
+            if r is None:
+                return None
+            return {"family": _variant_family(j["variant"], r[0]), "what": r[0], "input": j, "observed": r[1], "required": r[2]}
+        finally:
+            sc.close()
     if "mats" not in j:
         return None
     sc = _Scratch()
